@@ -489,6 +489,7 @@
 		cmp	ebx, FLAGS_CPUID7_EBX_AVX512_G1
 		lea	mbin_rbx, [%6 WRT_OPT] ; AVX512/06 opt
 		cmove	mbin_rsi, mbin_rbx
+		jne	_%1_init_done	  ; No AVX512 G1, so not the AVX512 + SHANI version
 
 		;; Test for SHANI
 		xor	ecx, ecx
